@@ -203,6 +203,9 @@ def classify(tree, text):
     if has(tree, lambda n: n[0] == 'li' and any(not isinstance(k, str) and k[0] == 'p' and has(k, lambda m: m[0] == 'br') for k in n[2][:1])) or \
             has(tree, lambda n: n[0] == 'remark' and any(not isinstance(k, str) and k[0] == 'br' for k in n[2])):
         cands.append(('F32', lambda t: drop_elems(t, lambda n, pc: n[0] == 'br')))
+    if has(tree, lambda n: n[0] == 'item' and any(k != 'eId' for k in n[1])):
+        # F44: the stylesheet writes ITEM.class{attrs}, but the grammar's block_list_item takes no attribute list
+        cands.append(('F44', strip_item_attrs))
     cands = [(fid, (lambda t, rp=rp: prune(rp(t)))) for fid, rp in cands]
     for fid, repair in cands:
         t2 = repair(tree)
@@ -217,6 +220,12 @@ def classify(tree, text):
         if violation(t2, classify_known=False) is None:
             return cands[0][0]
     return None
+
+
+def strip_item_attrs(t):
+    tag, attrs, kids = t
+    a = {k: v for k, v in attrs.items() if k == 'eId'} if tag == 'item' else attrs
+    return [tag, a, [k if isinstance(k, str) else strip_item_attrs(k) for k in kids]]
 
 
 def has_below(n, pred):
@@ -293,7 +302,7 @@ def run(ctx, info):
     ctx.oblige('oracle: unparse then re-parse gives the same structure and text; input untouched; no word dropped (outside listed findings)', 'oracle',
                nb == 0, f'{nb} unlisted violations in {len(trees)} trees; listed classes hit {known}')
     if drv:
-        ms = drv.batch_parallel([{'op': 'unparse', 'tree': t} for t in trees], jobs=12)
+        ms = drv.batch_parallel([{'op': 'unparse', 'tree': eidlib.ordered(t)} for t in trees], jobs=12)
         bad = []
         for t, m in zip(trees, ms):
             rl = real.unparse_tree(t)
